@@ -231,6 +231,10 @@ impl Ctx {
     }
 
     fn ev(&mut self, v: Value) {
+        // multi-megabyte strings are not sent to the Python oracle (seconds each there)
+        if v["s"].as_str().map(|s| s.len()).unwrap_or(0) > 300_000 {
+            return;
+        }
         if self.events_left > 0 && self.r.has_events() {
             self.events_left -= 1;
             self.r.event(&v);
@@ -615,7 +619,12 @@ fn sorted(items: &[(u32, Vec<u8>)]) -> Vec<(u32, Vec<u8>)> {
 fn container_case(c: &mut Ctx, kind: &'static str, net: NetworkType, items: &[(u32, Vec<u8>)]) {
     let want = expect_items_ok(items);
     let want_items = sorted(items);
-    let replay = json!({"kind": kind, "net": net_name(net), "items": items_json(items)});
+    let replay = if items.iter().map(|(_, d)| d.len()).sum::<usize>() > 4096 {
+        json!({"kind": kind, "net": net_name(net),
+               "items": items.iter().map(|(t, d)| json!({"typecode": t, "len": d.len(), "first_byte": d.first()})).collect::<Vec<_>>()})
+    } else {
+        json!({"kind": kind, "net": net_name(net), "items": items_json(items)})
+    };
     c.r.case(&("container", kind, net_name(net), shape_of(&Obs::Unified(want_items.clone())), want.err()), true);
     // (typed items, encode, decode) per kind, reduced to item lists
     let got: Result<Result<(String, (NetworkType, Vec<(u32, Vec<u8>)>), String), String>, String> = guard(|| match kind {
@@ -740,6 +749,17 @@ fn section_values(c: &mut Ctx, n: u64, frac: f64) {
                 let items = arb_items(c, kind);
                 c.protect("container", json!({"kind": kind, "items": items_json(&items)}), |c| container_case(c, kind, net, &items));
             }
+        }
+    }
+    // Large containers (one shard): ZIP 316 allows 4194368 *bytes* before Bech32m, i.e. strings of up
+    // to 6710997 characters. 2621475 padded bytes give a string of exactly 4194368 characters.
+    if c.r.args().shard == 0 {
+        for padded in [2_621_475usize, 2_621_476, F4_MAX] {
+            // Sapling item (45 bytes) + unknown item 0xffff (3-byte typecode, 5-byte length) + 16 padding
+            let n = padded - 16 - 45 - 3 - 5;
+            let items = vec![(2u32, c.bytes(43)), (0xffffu32, vec![0x5a; n])];
+            c.protect("container", json!({"kind": "addr", "padded_bytes": padded}), |c| container_case(c, "addr", NetworkType::Main, &items));
+            c.r.count("large_containers_tried", 1);
         }
     }
     // diagnostics (not violations): values that are not "unknown receivers" in the sense of the
